@@ -19,4 +19,5 @@ func registerAll() {
 	core.Register("C10", execC10)
 	core.Register("C11", execC11)
 	core.Register("C03", execC03)
+	core.Register("C16", execC16)
 }
